@@ -20,7 +20,7 @@ META = common.meta(
 
 def tasks(tier, seed):
     out = []
-    n = 48 if tier == 'quick' else 320
+    n = 48 if tier == 'quick' else common.thorough(320)
     for k in range(n):
         out.append(('vt.props.c11', 't3_case', {'seed': seed, 'k': k, 'backend': 'T3', 'd': 1 + k % 4 if (k // 6) % 4 in (0, 2) else 2 + k % 3,
                                                 'kind': ['real', 'complex'][(k // 3) % 2],
